@@ -21,10 +21,6 @@ from vlib import Inconclusive
 LABEL_ASPECTS = storecmp.LABEL_ASPECTS
 
 
-def spec_files():
-    return None
-
-
 def store_spec_differs():
     """spec/reopen/GraphStore.tla is a verbatim copy of the C03 abstract store"""
     try:
@@ -36,13 +32,12 @@ def store_spec_differs():
 
 # ------------------------------------------------------------------ generation (TLC)
 def restart_histories(ctx):
-    plan = [("Reopen_r2.cfg", None, None), ("Reopen_sim.cfg", "num=%d" % (40 if ctx.tier == "quick" else 400), 13)]
+    plan = [("Reopen_r2.cfg", None, None), ("Reopen_sim.cfg", "num=%d" % (120 if ctx.tier == "quick" else 1500), 14)]
     if ctx.tier != "quick":
         plan.insert(1, ("Reopen_r3.cfg", None, None))
     hs, seen = [], set()
     for cfg, sim, depth in plan:
-        res = ctx.tlc("reopen", "Reopen", cfg, simulate=sim, depth=depth, files=spec_files(), timeout=1500, workers=8,
-                      count=(sim is None))
+        res = ctx.tlc("reopen", "Reopen", cfg, simulate=sim, depth=depth, timeout=1500, workers=(1 if sim else 8), count=(sim is None))
         for h in res.msgs.get("hist", []):
             k = json.dumps([x["call"] for x in h], sort_keys=True)
             if k not in seen:
@@ -55,11 +50,10 @@ def restart_histories(ctx):
 
 def crash_states(ctx):
     plan = [("KVGraphImpl_c2.cfg" if ctx.tier == "quick" else "KVGraphImpl_c3.cfg", None, None),
-            ("KVGraphImpl_sim.cfg", "num=%d" % (25 if ctx.tier == "quick" else 300), 8)]
+            ("KVGraphImpl_sim.cfg", "num=%d" % (40 if ctx.tier == "quick" else 400), 9)]
     out, seen = [], set()
     for cfg, sim, depth in plan:
-        res = ctx.tlc("reopen", "KVGraphImpl", cfg, simulate=sim, depth=depth, files=spec_files(), timeout=1500, workers=8,
-                      count=(sim is None))
+        res = ctx.tlc("reopen", "KVGraphImpl", cfg, simulate=sim, depth=depth, timeout=1500, workers=(1 if sim else 8), count=(sim is None))
         for s in res.msgs.get("crashcase", []):
             k = json.dumps(s["calls"], sort_keys=True)
             if k not in seen:
@@ -285,14 +279,19 @@ def run(ctx):
     # every history with an in-process reopen; a share of them (all in the thorough tier) also with the store
     # directory really closed and opened again, and on the other drivers
     rreqs = []   # (driver, history index, full)
-    full_share = 0.25 if ctx.tier == "quick" else 1.0
+    # closing and re-opening a Badger directory takes seconds: a seeded sample of the histories whose store is
+    # not empty at the restart; the other drivers reopen in milliseconds
+    nonempty = [i for i, h in enumerate(hs) if any(e["call"]["op"] == "Restart" and storecmp.nstate(e["after"]) for e in h)]
+    nfull = 32 if ctx.tier == "quick" else 400
+    full_badger = set(ctx.rng.sample(nonempty, min(nfull, len(nonempty))))
+    nonempty = set(nonempty)
     for d in drivers(ctx):
         for i, h in enumerate(hs):
             if d == "badger":
                 rreqs.append((d, i, False))
-                if ctx.rng.random() < full_share:
+                if i in full_badger:
                     rreqs.append((d, i, True))
-            elif ctx.rng.random() < 0.3:
+            elif i in nonempty and ctx.rng.random() < 0.5:
                 rreqs.append((d, i, True))
     routs = {}
     for d in drivers(ctx):
@@ -359,7 +358,7 @@ def run(ctx):
                     unjudgeable.append((n, cr["k"], ["after the next call: " + p for p in cprobs]))
                     continue
                 frm = {g: dict(V=x["V"], E=x["E"]) for g, x in obs.items()}
-                jl.append(dict(kind="cont", i=len(jl), calls=calls, call=r["cont"], obs=cobs, **{"from": frm}))
+                jl.append(dict(kind="cont", i=len(jl), calls=calls, interrupted=case["call"], call=r["cont"], obs=cobs, **{"from": frm}))
                 meta.append(("cont", n, cr["k"]))
         # the completed call followed by a reopen
         dobs, dprobs = reshape(o["done"])
